@@ -126,7 +126,7 @@ fn word_pos(t: &[Tok], w: &str, from: usize) -> Option<usize> {
     t.iter().enumerate().skip(from).find(|(_, x)| matches!(x, Tok::Word(s) if s.eq_ignore_ascii_case(w))).map(|(i, _)| i)
 }
 
-const KINDS: [&str; 8] = ["select_where", "select_having", "update_where", "delete_where", "join_on", "case_when", "conflict_target_where", "conflict_action_where"];
+const KINDS: [&str; 9] = ["select_where", "select_having", "select_having_no_group", "update_where", "delete_where", "join_on", "case_when", "conflict_target_where", "conflict_action_where"];
 
 /// render the history on one statement kind; returns the predicate tokens (None = no predicate rendered)
 fn render(kind: &str, b: B, hist: &[CT]) -> Result<Option<Vec<Tok>>, String> {
@@ -140,6 +140,12 @@ fn render(kind: &str, b: B, hist: &[CT]) -> Result<Option<Vec<Tok>>, String> {
         }
         "select_having" => {
             let mut q = Query::select(); q.expr(Expr::val(1)).from(Alias::new("t")).group_by_col(Alias::new("g"));
+            for c in hist { match c { CT::Atom(n) => { q.and_having(atom(*n)); } g => { q.cond_having(build(g)); } } }
+            to_string_q(b, &q)
+        }
+        "select_having_no_group" => {
+            // HAVING without GROUP BY (the whole result is one group) is valid in all three engines
+            let mut q = Query::select(); q.expr(Func::count(Expr::col(Asterisk))).from(Alias::new("t"));
             for c in hist { match c { CT::Atom(n) => { q.and_having(atom(*n)); } g => { q.cond_having(build(g)); } } }
             to_string_q(b, &q)
         }
@@ -187,7 +193,7 @@ fn render(kind: &str, b: B, hist: &[CT]) -> Result<Option<Vec<Tok>>, String> {
     let slice = |from: Option<usize>, to: Option<usize>| -> Option<Vec<Tok>> { from.map(|f| toks[f + 1..to.unwrap_or(toks.len())].to_vec()) };
     Ok(match kind {
         "select_where" | "update_where" | "delete_where" => slice(word_pos(&toks, "WHERE", 0), None),
-        "select_having" => slice(word_pos(&toks, "HAVING", 0), None),
+        "select_having" | "select_having_no_group" => slice(word_pos(&toks, "HAVING", 0), None),
         "join_on" => slice(word_pos(&toks, "ON", 0), None),
         "case_when" => slice(word_pos(&toks, "WHEN", 0), word_pos(&toks, "THEN", 0)),
         "conflict_target_where" => { let c = word_pos(&toks, "CONFLICT", 0).unwrap_or(0); let d = word_pos(&toks, "DO", c); match word_pos(&toks, "WHERE", c) { Some(w) if Some(w) < d => slice(Some(w), d), _ => None } }
@@ -346,7 +352,7 @@ fn check_statement_model(ctx: &mut Ctx, t: &CT, b: B) {
 
 pub fn run(ctx: &mut Ctx) {
     let thorough = ctx.tier_thorough;
-    ctx.rule = format!("bounded-exhaustive: all condition trees of depth <= {} / width <= 2 (every any/all, every negate flag, empty groups, add_option(None) members) as 1-call histories on all 8 statement positions (SELECT WHERE / HAVING, UPDATE, DELETE, JOIN ON, CASE WHEN, ON CONFLICT target/action WHERE) x 3 backends, all ordered pairs of depth-1 trees as 2-call histories, then {} random histories (<= 4 calls, depth <= 4, width <= 3). Every third tree (thorough: every tree) also as a whole statement against the Lean statement model's condition renderer (text, values). Each: rendered predicate parsed by an independent SQL predicate parser and compared with the model's expression tree, and its 3-valued truth table (all 3^k assignments, k <= 4 atoms) compared with the AND of the supplied conditions. Non-trivial = non-empty history; distinct by request.", 2, if thorough { 60000 } else { 6000 });
+    ctx.rule = format!("bounded-exhaustive: all condition trees of depth <= {} / width <= 2 (every any/all, every negate flag, empty groups, add_option(None) members) as 1-call histories on all 9 statement positions (SELECT WHERE / HAVING with and without GROUP BY, UPDATE, DELETE, JOIN ON, CASE WHEN, ON CONFLICT target/action WHERE) x 3 backends, all ordered pairs of depth-1 trees as 2-call histories, then {} random histories (<= 4 calls, depth <= 4, width <= 3). Every third tree (thorough: every tree) also as a whole statement against the Lean statement model's condition renderer (text, values). Each: rendered predicate parsed by an independent SQL predicate parser and compared with the model's expression tree, and its 3-valued truth table (all 3^k assignments, k <= 4 atoms) compared with the AND of the supplied conditions. Non-trivial = non-empty history; distinct by request.", 2, if thorough { 60000 } else { 6000 });
     if let Some(rp) = ctx.replay.clone() {
         // replay by history S-expression is not parsed back here; the random stream is deterministic by seed
         let _ = rp;
